@@ -2153,7 +2153,7 @@ impl Prop for C05 {
         48
     }
     fn rule() -> &'static str {
-        "one evaluation = one simulated process history: 1..4 programs (seeded generator over all seven dialect settings, plus shipped sources under resources/tests) are compiled by a reference actor in canonical state, then by 1..8 perturbed actor threads whose operations (compile, failing compile at nine stages, name-counter jump, ambient integer-mode guard, re-entrant compile from read_new_file, reused allocator) are interleaved by the seeded scheduler at operation boundaries and at allocation-count preemption points, each thread with its own simulated hash entropy; every perturbed compile is compared with the reference (Ok/Err class, bytes, symbol entries with generated-name digits erased). Non-trivial run = at least one compared compile finished Ok for a program whose compile generates at least one fresh name (a modern-dialect program with a function, binding or lambda — the compiler renames every bound name —, a `_$_` entry in its symbol table, or movement of the global name counter) (every perturbed compile differs from the reference at least in thread and hash entropy). Distinct = hash of (complete workload, event log) among non-trivial runs; coverage.distinct_program_perturbation_pairs additionally counts distinct (program text, perturbation vector) pairs."
+        "one evaluation = one simulated process history: 1..4 programs (seeded generator over all seven dialect settings, plus shipped sources under resources/tests) are compiled by a reference actor in canonical state, then by 1..8 perturbed actor threads whose operations (compile, failing compile at nine stages, name-counter jump, ambient integer-mode guard, re-entrant compile from read_new_file, reused allocator) are interleaved by the seeded scheduler at operation boundaries and at allocation-count preemption points, each thread with its own simulated hash entropy; every perturbed compile is compared with the reference (Ok/Err class, bytes, symbol entries with generated-name digits erased); in one run of three, one program is additionally compiled as the very first compile of a newly exec'ed process and after a seeded history (1..3 other programs or failing compiles) in another newly exec'ed process, and the two results are compared the same way. Non-trivial run = at least one compared compile finished Ok for a program whose compile generates at least one fresh name (a modern-dialect program with a function, binding or lambda — the compiler renames every bound name —, a `_$_` entry in its symbol table, or movement of the global name counter) (every perturbed compile differs from the reference at least in thread and hash entropy). Distinct = hash of (complete workload, event log) among non-trivial runs; coverage.distinct_program_perturbation_pairs additionally counts distinct (program text, perturbation vector) pairs."
     }
     fn assumptions() -> Vec<String> {
         vec![
@@ -2166,6 +2166,7 @@ impl Prop for C05 {
     fn real_vs_stub() -> serde_json::Value {
         serde_json::json!({
             "real": ["cmds::launch_tool (`run`, with its option parsing) for command-line programs, compiler::compile_file called directly with caller-built options", "clvmc::compile_clvm_text (both classic_with_opts settings) and everything below it: reader, preprocessor, frontend, rename, desugaring, CSE, deinlining, codegen, classic stage_2 compiler, clvmr", "gensym::ARGNAME_CTR, clvm::NewStyleIntConversion, CompilerOpts delegation (public items of the crate used as seams)", "std HashMap/HashSet with RandomState"],
+            "fresh_process_pair": "real: two exec's of the simulator binary per pair, no warm-up of the compiler before the first compile",
             "simulated": ["thread scheduling (operation boundaries, allocation-count preemption, every clock read)", "clock (clock_gettime: stands still in the reference compile, jumps by 2 s .. 26 h while a compile is parked in one run of three)", "hash entropy (getrandom)", "process history (counter values, earlier failures, ambient mode)"],
             "python_binding": if crate::pybind::available() { "real: src/py/api.rs `compile` (pyo3 0.24, CPython 3.11 embedded in the worker) for one program in ten and for every program of one run in eight" } else { "not in this build (built with --no-default-features): those programs go through compile_clvm_text(classic_with_opts = true), which is what the binding calls" },
             "not_run": ["wasm bindings"]
@@ -2174,6 +2175,7 @@ impl Prop for C05 {
     fn bounds(thorough: bool) -> serde_json::Value {
         serde_json::json!({
             "programs_per_run": "1..4",
+            "fresh_process_pair": "one run in three; history 1..3 entries; skipped above 12 million reference allocations",
             "threads": if thorough { "1..8" } else { "1..4" },
             "ops_per_thread": "1..7",
             "preemption_points_per_op": "0..3",
